@@ -31,6 +31,46 @@ OpOf(t, i) == sc.threads[t][i]
 KeyOf(op) == IF "k" \in DOMAIN op THEN op.k ELSE 0
 IsRead(op) == op.op \in {"get", "size", "range", "reader"}
 
+(***************************************************************************)
+(* The directory at a scheduling step (every worker parked), decoded by the *)
+(* independent reader: what a process kill at this instant leaves behind.   *)
+(* C20: the log and snapshot are well-formed; C03/C04: the model's recovery *)
+(* of it succeeds, every key holds the value the handle shows or the value  *)
+(* an operation in flight is writing, and every referenced blob is there.   *)
+(***************************************************************************)
+SegsOfJson(js) == [id \in {js[i].id : i \in 1..Len(js)} |->
+                      LET i == CHOOSE i \in 1..Len(js) : js[i].id = id IN js[i].items]
+DiskOfJson(dj) == [settings |-> dj.settings, snap |-> dj.snap, segs |-> SegsOfJson(dj.segs)]
+\* values that operations in flight (called, not yet returned) may be writing to key k
+InFlightVals(k) ==
+    UNION { LET op == OpOf(u, oopi[u]) IN
+            IF op.op \in {"put", "txfinish"} /\ op.k = k THEN {op.c}
+            ELSE IF op.op = "del" /\ op.k = k THEN {Absent}
+            ELSE IF op.op = "delr" THEN {Absent}
+            ELSE {}
+          : u \in {u \in 1..NT : oopi[u] <= Len(sc.threads[u])} }
+DiskFails(o) ==
+    IF ~("disk" \in DOMAIN o) THEN {} ELSE
+    LET d == DiskOfJson(o.disk)
+        r == Recover(d, sc.n)
+    IN  UNION {
+          Fail(\A id \in DOMAIN d.segs : SegmentWellFormed(d.segs[id]), "C20:segment-shape"),
+          Fail(VersionsIncreasing(d.segs), "C20:versions-increasing"),
+          Fail(VersionsInRange(d.segs, sc.n), "C20:version-range"),
+          Fail(d.snap.st \in {"none", "full"}, "C20:snapshot-complete"),
+          Fail(r.ok, "C03:crash-image-not-recoverable"),
+          IF r.ok /\ o.has_idx
+          THEN Fail(\A k \in Keys : r.idx[k] = o.idx[k] \/ (lobs.has_idx /\ r.idx[k] = lobs.idx[k]) \/ r.idx[k] \in InFlightVals(k),
+                    "C03:crash-image-shows-a-value-nobody-wrote")
+          ELSE {},
+          IF r.ok THEN Fail(\A k \in Keys : r.idx[k] # Absent => r.idx[k] \in SeqToSet(o.cas), "C04:dangling-after-crash") ELSE {}
+        }
+\* at quiescence (every call returned, none failed): snapshot plus log, decoded independently, equal the state the handle shows
+QuiescentDiskFails(o) ==
+    IF ~("disk" \in DOMAIN o) \/ ~o.has_idx THEN {} ELSE
+    LET r == Recover(DiskOfJson(o.disk), sc.n) IN
+    Fail(r.ok /\ r.idx = o.idx, "C20:decode-equals-history")
+
 Init == l = 1 /\ s = ConcInit(1, EmptyIdx, {}, 1, <<>>, <<>>) /\ sc = [sid |-> "", sched |-> "", threads |-> <<>>, n |-> 1, plant |-> <<>>]
         /\ lobs = [has_idx |-> FALSE] /\ oseen = <<>> /\ oopi = <<>> /\ failed = FALSE
 
@@ -85,6 +125,7 @@ OnStep ==
              Fail(~o.has_idx \/ \A k \in Keys : o.idx[k] # Absent => o.idx[k] \in SeqToSet(o.cas), "C04:dangling-reference"),
              Fail(o.casbad = <<>>, "C06:blob-bytes"),
              Fail(o.casw = 0, "C06:in-place-write-under-cas"),
+             DiskFails(o),
              UNION { RetFails(rets[i], seen1[rets[i].t]) : i \in 1..Len(rets) },
              \* ---- refinement
              Fail(pre \/ stuckW \/ stuckR, "DRIFT:model-thread-not-at-" \o Line.at),
@@ -117,6 +158,7 @@ OnEnd == /\ Line.ev = "end"
                 Fail(lobs.has_idx /\ SeqToSet(lobs.cas) \ SeqToSet(sc.plant) = Live(lobs.idx) \ SeqToSet(sc.plant), "C07:cas-listing-at-quiescence"),
                 Fail(lobs.stg = 0, "C07:staging-at-quiescence"),
                 Fail(lobs.has_intents /\ \A k \in Keys : lobs.intents[k] = Absent, "C07:intent-left"),
+                QuiescentDiskFails(lobs),
                 Fail(AllDone(s), "DRIFT:model-not-done")
               })
          /\ UNCHANGED <<s, sc, lobs, oseen, oopi, failed>>
